@@ -54,7 +54,7 @@ func targetOutsideRootBody(p *Prog, r *Report, rule string) {
 		}
 		r.Check(ok, rule, site, p.Pos(ret.Pos()), "answer = marker test on Join(marker, …, target)", "TargetOutsideRoot answers on some path without examining the joined, cleaned path of the target (a constant or a test on the raw target text): a target that climbs out after a harmless first component is accepted, and the symlink kept in the unpacked tree resolves outside it")
 	}
-	r.Instances(rule, "returns of symlink.TargetOutsideRoot", n, 2)
+	r.Instances(rule, "returns of symlink.TargetOutsideRoot", n, 1)
 }
 
 // counterOnlyIncrements: the field is written only by `field = field + 1` (and by the struct
@@ -110,7 +110,7 @@ func mapOnlySetTrue(p *Prog, r *Report, rule, stype, field, relPkg, why string) 
 func onlyLoopEndSkips(p *Prog, r *Report, rule, site string, fn *ssa.Function, progress func(ssa.Instruction) bool, allowed []string, why string) {
 	var extra []string
 	for _, x := range loopSkips(fn, progress) {
-		if strings.HasPrefix(x, "builtin.len(") && strings.Contains(x, "<=") {
+		if strings.HasPrefix(x, "range-end: ") {
 			continue
 		}
 		ok := false
@@ -131,8 +131,8 @@ func onlyLoopEndSkips(p *Prog, r *Report, rule, site string, fn *ssa.Function, p
 // the configured extractors. Audited: the extractor does not require the file; the size limit is
 // exceeded / the size cannot be determined (those end the file for every extractor, by design).
 var extractorLoopSanctioned = []string{
-	"!extractor/filesystem.Extractor.FileRequired(param0.extractors[(φ:int+1:int)],param0.fileAPI)",
-	"builtin.len(param0.extractors) <= (φ:int+1:int)",
+	"!extractor/filesystem.Extractor.FileRequired(param0.extractors[ι],param0.fileAPI)",
+	"range-end: param0.extractors",
 	"extractor/filesystem.fileSize(param0.fileAPI)#1 != nil:error",
 	"param0.maxFileSize < extractor/filesystem.fileSize(param0.fileAPI)#0",
 	// early exits of the loop: only the two size-limit decisions (they end the file for every extractor)
@@ -168,7 +168,7 @@ func extractorLoopRule(p *Prog, r *Report, e *engine, rule string) {
 	}
 	key := fnKey(e.handleFile)
 	for g, n := range have {
-		if n > want[g] {
+		if _, audited := want[g]; !audited && n > 0 {
 			r.Fail(rule, key+":extractor-loop:new:"+short(g, 120), p.Pos(e.handleFile.Pos()), "a decision that keeps the current file from an extractor (or from all remaining extractors) is not among the audited ones: "+g+" — e.g. leaving the loop after one extractor failed to open the file means the other extractors that require it never see it and are reported as succeeded")
 		} else {
 			r.OK(rule, key+":extractor-loop:"+short(g, 120), p.Pos(e.handleFile.Pos()), "audited decision")
@@ -213,7 +213,17 @@ var frozenSkipsDepth = 10
 func frozenSkips(p *Prog, r *Report, rule, site string, fn *ssa.Function, progress func(ssa.Instruction) bool, want []string, learnTag, why string) {
 	defer func(d int, a bool) { renderDepth, renderAllocs = d, a }(renderDepth, renderAllocs)
 	renderDepth, renderAllocs = frozenSkipsDepth, true
-	got := loopSkips(fn, progress)
+	frozenCompare(p, r, rule, site, fn, loopSkips(fn, progress), want, learnTag, why)
+}
+
+// frozenFnSkips: the same for a function body taken as one iteration (fnSkips).
+func frozenFnSkips(p *Prog, r *Report, rule, site string, fn *ssa.Function, progress func(ssa.Instruction) bool, want []string, learnTag, why string) {
+	defer func(d int, a bool) { renderDepth, renderAllocs = d, a }(renderDepth, renderAllocs)
+	renderDepth, renderAllocs = frozenSkipsDepth, true
+	frozenCompare(p, r, rule, site, fn, fnSkips(fn, progress), want, learnTag, why)
+}
+
+func frozenCompare(p *Prog, r *Report, rule, site string, fn *ssa.Function, got, want []string, learnTag, why string) {
 	if os.Getenv("SCALINT_LEARN") != "" {
 		for _, g := range got {
 			fmt.Fprintf(os.Stderr, "LEARN-%s\t%q,\n", learnTag, g)
@@ -229,7 +239,7 @@ func frozenSkips(p *Prog, r *Report, rule, site string, fn *ssa.Function, progre
 		h[x]++
 	}
 	for x, n := range h {
-		if n > w[x] {
+		if _, audited := w[x]; !audited && n > 0 {
 			r.Fail(rule, site+":new:"+short(x, 120), p.Pos(fn.Pos()), why+" — unaudited decision: "+x)
 		} else {
 			r.OK(rule, site+":"+short(x, 120), p.Pos(fn.Pos()), "audited decision")
